@@ -42,7 +42,7 @@ type liTest struct {
 }
 
 var liTests = []liTest{
-	{"codeSpan", "codeSpanLen > 0", "c509e21bec317790"},
+	{"codeSpan", "codeSpanLen > 0", "4ca79f097dc8c287"}, // after fix 8b404d9 (a backtick string of another length is passed over as a whole)
 	{"rawCloser", `html.rawCloser != ""`, "22d6c2ccf409dd33"},
 	{"rawTag", `html.rawTag != ""`, "e1e14a095f2ff378"},
 	{"htmlOpen", "len(linkStack) == 0 && c == '<'", "f35d3fc971a5c77b"},
